@@ -337,6 +337,24 @@ def full_tuple_key_unhashable(d):
     Hashable test of construct_mapping and the dict insertion raises TypeError."""
     return d.get('exc') == 'TypeError' and 'python/tuple' in (d.get('text') or '') and 'Full' in (d.get('loader') or '') or (d.get('exc') == 'TypeError' and 'python/tuple' in (d.get('text') or '') and d.get('loader') in ('UnsafeLoader', 'Loader'))
 
+def full_named_generator_advanced(d):
+    """FullLoader / CFullLoader (and the unsafe ones): a python/name tag whose dotted name resolves, in an already-imported module,
+    to a live GENERATOR object: construct_object takes the returned generator for a two-step constructor and advances it."""
+    if d.get('kind') not in ('foreign_call', 'named_object_replaced', 'named_object_used', 'non_yaml_exception') or not d.get('text'): return False
+    import re, sys, types
+    try: import tools.c04names
+    except Exception: pass
+    names = re.findall(r'python/name:([A-Za-z0-9_.]+)', d['text'])
+    gens = []
+    for nm in names:
+        mod, _, attr = nm.rpartition('.')
+        o = getattr(sys.modules.get(mod), attr, None) if mod else None
+        if isinstance(o, types.GeneratorType): gens.append(nm)
+    if not gens: return False
+    if d['kind'] == 'non_yaml_exception': return d.get('exc') in ('RuntimeError', 'StopIteration') and 'StopIteration' in d.get('what', '')      # the same generator, already exhausted by an earlier load
+    if d['kind'] == 'foreign_call': return any((':' + g.__name__) in d.get('what', '') or g.gi_code.co_name in d.get('what', '') for g in [getattr(sys.modules[n.rpartition('.')[0]], n.rpartition('.')[2]) for n in gens])
+    return any(g in d.get('what', '') for g in gens)
+
 def merge_source_tag_ignored(d):
     """a foreign tag on a mapping (or on the sequence of mappings) that is the *value of a merge key*: flatten_mapping splices
     the pairs of that node into the target without ever constructing the node, so its tag is never dispatched - nothing is
